@@ -1399,6 +1399,12 @@ def build_front_cases(ctx):
             gen["kind"] = "random"
         for op in ("angles", "dihedrals"):
             cases.append({"front": "flag", "op": op, "gen": gen, "calls": [[o, c] for o in (True, False) for c in range(6)]})
+    # (2b) strongly skewed cells with compact atom groups whose bonds are nevertheless shorter through a combined lattice vector
+    for _ in range(8 if quick else 160):
+        gen = {"kind": "skew", "cell": "tric", "skew": rng.choice(["g60", "g120", "606090", "oct"]), "n": rng.randint(4, 5), "F": rng.randint(1, 2),
+               "seed": rng.randrange(1, 2 ** 31 - 1)}
+        for op in ("angles", "dihedrals"):
+            cases.append({"front": "flag", "op": op, "gen": gen, "calls": [[True, 0], [False, 0], [True, 1]]})
     # (3) cells within / just outside numpy.allclose(angles, 90) of orthorhombic, atoms up to 30 cells apart
     for _ in range(6 if quick else 120):
         dev = rng.choice([2e-4, 5e-4, 7e-4, 7e-4, 3e-3, 0.0])
@@ -1520,6 +1526,36 @@ def fronts_as_read():
     return out
 
 
+def gen_skew(gen):
+    """strongly skewed cells (gamma 60 / 120, 60-60-90, truncated octahedron 109.47 x 3) with a COMPACT group of atoms: every
+    per-axis extent stays below 0.47 of the corresponding edge length, yet many bonds are shorter through a combined lattice
+    vector (e.g. r - b in a gamma = 60 cell) -- per-axis compactness does not make the minimum image the identity"""
+    rs = np.random.RandomState(gen["seed"])
+    L = int(rs.randint(2 * UNIT, 4 * UNIT + 1))
+    Lz = int(rs.randint(2 * UNIT, 4 * UNIT + 1))
+    k = gen["skew"]
+    if k == "g60":
+        box = [[L, 0, 0], [L // 2, int(round(0.8660254 * L)), 0], [0, 0, Lz]]
+    elif k == "g120":
+        box = [[L, 0, 0], [-(L // 2), int(round(0.8660254 * L)), 0], [0, 0, Lz]]
+    elif k == "606090":
+        box = [[L, 0, 0], [0, L, 0], [L // 2, L // 2, int(round(0.70710678 * L))]]
+    else:
+        box = [[L, 0, 0], [-(L // 3), int(round(0.94280904 * L)), 0], [-(L // 3), -int(round(0.47140452 * L)), int(round(0.81649658 * L))]]
+    lengths = [math.sqrt(idot(v, v)) for v in box]
+    n, F = gen["n"], gen["F"]
+    frames = []
+    for _ in range(F):
+        org = rs.randint(-UNIT, UNIT, size=3)
+        # atoms near the corners of the compact region: long diagonals, the bonds most likely to have a closer image
+        X = np.array([[int(org[a] + (rs.uniform(0.0, 0.08) if rs.rand() < 0.5 else rs.uniform(0.39, 0.47)) * lengths[a]) for a in range(3)]
+                      for _ in range(n)], dtype=np.int64)
+        frames.append(X)
+    tri = [[int(v) for v in rs.choice(n, 3, replace=False)] for _ in range(4)]
+    quad = [[int(v) for v in rs.choice(n, 4, replace=False)] for _ in range(4)]
+    return np.array(frames), [box] * F, tri, quad
+
+
 def run_front(ctx, cases):
     notes = ctx.notes.setdefault("coverage_extra", {})
     fr_read = fronts_as_read() or {}
@@ -1534,7 +1570,7 @@ def run_front(ctx, cases):
                 e["empty_width"] = c["empty_width"]
             payload.append(e)
         elif c["front"] == "flag":
-            X, box, tri, quad = gen_geom(c["gen"])
+            X, box, tri, quad = gen_skew(c["gen"]) if c["gen"].get("kind") == "skew" else gen_geom(c["gen"])
             idx = tri[:6] if c["op"] == "angles" else quad[:6]
             prep[k] = (X, box, idx)
             inp["f%d_xyz" % k] = (X.astype(np.float64) / UNIT).astype(np.float32)
@@ -1602,7 +1638,7 @@ def run_front(ctx, cases):
             for j, (opt, code) in enumerate(c["calls"]):
                 key = "f%d_c%d" % (k, j)
                 crec = {"front": "flag", "op": c["op"], "gen": c["gen"], "calls": [[opt, code]]}
-                bucket = "front/flag/%s/periodic=%s/opt=%s/%s" % (c["op"], FLAG_NAMES[code], opt, "cell" if box else "no-cell")
+                bucket = "front/flag/%s/periodic=%s/opt=%s/%s" % (c["op"], FLAG_NAMES[code], opt, ("skewed-cell-" + c["gen"]["skew"]) if c["gen"].get("kind") == "skew" else ("cell" if box else "no-cell"))
                 if key not in out:
                     ctx.count(crec, bucket=bucket)
                     ctx.fail("compute_%s raised on valid input" % c["op"], crec, observed=r.get("errors", {}).get("c%d" % j), expected="a value",
